@@ -708,6 +708,19 @@ def _has_quals(src, fn):
 
 def inject_loop(src, ed, fn, which, entry):
     lp = _find_loop(fn, which)
+    itname = entry.get("iter").strip()
+    if itname:
+        # R16: `for pat in expr`  ==>  `for pat in <name>: expr` (Verus' way of naming the loop's ghost iterator)
+        if lp["kw"] != "for":
+            raise Drift("fn %s: loop %s is not a `for` loop (iter: section)" % (fn.key, which))
+        j = lp["kw_tok"] + 1
+        while j < lp["open"] and not (src.toks[j].kind == "ident" and src.toks[j].text == "in"):
+            if src.toks[j].text in OPEN:
+                j = src.match[j]
+            j += 1
+        if j >= lp["open"]:
+            raise Drift("fn %s: `in` of for loop %s not found" % (fn.key, which))
+        ed.insert(src.toks[j].end, " %s:" % itname, "R16", "ghost name for the for-loop iterator (Verus syntax; no effect on execution)")
     spec = entry.get("spec")
     if spec.strip():
         ed.insert(src.toks[lp["open"]].start, "\n" + spec.rstrip("\n") + "\n        ", "inject-loopspec")
